@@ -315,6 +315,10 @@ class Net(object):
       except Exception:
         pass
     self.nexus = ofmod.OpenFlowNexus()
+    # whole frames reach the controller on a table miss (the default of 128 bytes cuts a DHCP message short, so a
+    # client with install_flows=False would hear nothing; and the port filter of _handle_PacketIn is only
+    # exercised by a frame that arrives complete on another port)
+    self.nexus.miss_send_len = 0xffff
     core.components["openflow"] = self.nexus
     core.components["OpenFlowConnectionArbiter"] = ofmod.OpenFlowConnectionArbiter()
     of_01.Connection.ID = 0
